@@ -47,6 +47,25 @@ type Atom struct {
 	ConjP    string          // Conj likewise
 }
 
+// lastInLoopBody: the statement is the last one of the body of a for / range loop.
+func (u *Unit) lastInLoopBody(st ast.Stmt) bool {
+	res := false
+	ast.Inspect(u.Body, func(n ast.Node) bool {
+		var body *ast.BlockStmt
+		switch l := n.(type) {
+		case *ast.ForStmt:
+			body = l.Body
+		case *ast.RangeStmt:
+			body = l.Body
+		}
+		if body != nil && len(body.List) > 0 && body.List[len(body.List)-1] == st {
+			res = true
+		}
+		return !res
+	})
+	return res
+}
+
 // Sig is the inventory signature (without strength).
 func (a *Atom) Sig() string {
 	s := ""
@@ -72,22 +91,23 @@ func (a *Atom) Sig() string {
 
 // Unit is one analysed body: a declared function or a function literal inside one.
 type Unit struct {
-	leafMode bool // shapeOf keeps parameters as ⟦$i|<type>⟧ tokens
-	Fn       *FuncDecl
-	Lit      *ast.FuncLit // nil for the declaration itself
-	Body     *ast.BlockStmt
-	Sig      *types.Signature
-	CFG      *cfg.CFG
-	Info     *types.Info
-	FR       map[*cfg.Block]bool // failure region
-	Exits    []*Exit
-	Atoms    []*Atom
-	idom     []int // immediate dominators (by block index), -1 for entry/unreachable
-	preds    map[*cfg.Block][]*cfg.Block
-	rdIn     map[*cfg.Block]defSet
-	nodeBlk  map[ast.Node]*cfg.Block
-	prog     *Program
-	eng      *GuardEngine
+	aliasHops int  // recursion guard for following plain copies in argShape
+	leafMode  bool // shapeOf keeps parameters as ⟦$i|<type>⟧ tokens
+	Fn        *FuncDecl
+	Lit       *ast.FuncLit // nil for the declaration itself
+	Body      *ast.BlockStmt
+	Sig       *types.Signature
+	CFG       *cfg.CFG
+	Info      *types.Info
+	FR        map[*cfg.Block]bool // failure region
+	Exits     []*Exit
+	Atoms     []*Atom
+	idom      []int // immediate dominators (by block index), -1 for entry/unreachable
+	preds     map[*cfg.Block][]*cfg.Block
+	rdIn      map[*cfg.Block]defSet
+	nodeBlk   map[ast.Node]*cfg.Block
+	prog      *Program
+	eng       *GuardEngine
 }
 
 type Exit struct {
@@ -107,11 +127,12 @@ type defSet map[*def]bool
 
 // GuardEngine caches units per function.
 type GuardEngine struct {
-	known map[string]bool // function keys present in any frozen reference (nil: unknown)
-	prog  *Program
-	units map[*FuncDecl]*Unit
-	lits  map[*ast.FuncLit]*Unit
-	flat  map[*FuncDecl][]*Atom
+	known      map[string]bool // function keys present in any frozen reference (nil: unknown)
+	helperNest int             // nesting of helperResultShape (recursion guard)
+	prog       *Program
+	units      map[*FuncDecl]*Unit
+	lits       map[*ast.FuncLit]*Unit
+	flat       map[*FuncDecl][]*Atom
 }
 
 func NewGuardEngine(p *Program) *GuardEngine {
@@ -950,7 +971,7 @@ func (u *Unit) extractAtoms(g *GuardEngine) {
 				sort.Strings(cs)
 				sort.Strings(csp)
 				a.Conj = "&&(" + strings.Join(cs, ",") + ")"
-				a.ConjP = "&&(" + strings.Join(csp, ",") + ")"
+				a.ConjP = strings.Join(csp, "\x00")
 			}
 			u.Atoms = append(u.Atoms, a)
 		}
@@ -1037,6 +1058,10 @@ func (u *Unit) extractAtoms(g *GuardEngine) {
 		}
 		blk := u.BlockOf(ifs.Cond)
 		if blk == nil || !blk.Live || u.FR[blk] {
+			return true
+		}
+		// a `continue` with nothing after it in the loop body filters nothing
+		if u.lastInLoopBody(ifs) && br.Label == nil {
 			return true
 		}
 		var leaves []leafInfo
@@ -1132,6 +1157,9 @@ func (u *Unit) leafShape(e ast.Expr, failTrue bool) string {
 		s := l + op.String() + r
 		if strings.Contains(s, "<error>") && strings.Contains(s, "nil") {
 			return "err"
+		}
+		if u.leafMode && (op == token.EQL || op == token.NEQ) {
+			return l + "⟪" + op.String() + "⟫" + r // operand order is re-canonicalised after substitution
 		}
 		return s
 	case *ast.CallExpr:
@@ -1307,7 +1335,7 @@ func (g *GuardEngine) flatAtoms(fd *FuncDecl, onPath map[*FuncDecl]bool, depth i
 					cp.ShapeP = ls.applyLeaf(ha.ShapeP)
 					cp.ConjP = ls.applyLeaf(ha.ConjP)
 					cp.Shape = finalizeLeaf(cp.ShapeP)
-					cp.Conj = finalizeLeaf(cp.ConjP)
+					cp.Conj = finalizeConj(cp.ConjP)
 					if strings.Contains(cp.Shape, "<error>") && strings.Contains(cp.Shape, "nil") {
 						cp.Shape = "err"
 					}
@@ -1464,15 +1492,30 @@ func newLeafSubst(u *Unit, c *ast.CallExpr) paramSubst {
 	ps := paramSubst{}
 	u.leafMode = true
 	defer func() { u.leafMode = false }()
+	// only operands that are a parameter, a field or a constant are substituted (anything computed stays a
+	// type, as a local holding it would)
+	simple := func(a ast.Expr) string {
+		sh := u.condOperand(a)
+		if strings.HasPrefix(sh, "⟦") && strings.HasSuffix(sh, "⟧") && strings.Count(sh, "⟦") == 1 {
+			return sh
+		}
+		if strings.HasPrefix(sh, ".") && !strings.ContainsAny(sh[1:], ".+-*/%&|^<>()[] ") {
+			return sh
+		}
+		if tv, ok := u.Info.Types[ast.Unparen(a)]; ok && tv.Value != nil {
+			return sh
+		}
+		return ""
+	}
 	for i, a := range c.Args {
 		if i > 9 {
 			break
 		}
-		ps["$"+itoa(i)] = u.condOperand(a)
+		ps["$"+itoa(i)] = simple(a)
 	}
 	if sel, ok := ast.Unparen(c.Fun).(*ast.SelectorExpr); ok {
 		if f, ok := typeutil.Callee(u.Info, c).(*types.Func); ok && f.Type().(*types.Signature).Recv() != nil {
-			ps["$recv"] = u.condOperand(sel.X)
+			ps["$recv"] = simple(sel.X)
 		}
 	}
 	return ps
@@ -1495,10 +1538,30 @@ func (ps paramSubst) applyLeaf(s string) string {
 
 // finalizeLeaf: parameters of the function whose inventory this is are rendered by their type.
 func finalizeLeaf(s string) string {
-	if !strings.Contains(s, "⟦") {
-		return s
+	s = leafTokenRe.ReplaceAllString(s, "$2")
+	for _, op := range []string{"==", "!="} {
+		if i := strings.Index(s, "⟪"+op+"⟫"); i >= 0 {
+			l, r := s[:i], s[i+len("⟪"+op+"⟫"):]
+			if l > r {
+				l, r = r, l
+			}
+			s = l + op + r
+		}
 	}
-	return leafTokenRe.ReplaceAllString(s, "$2")
+	return s
+}
+
+// finalizeConj: the sibling leaves of a conjunctive guard, each finalised, in canonical order.
+func finalizeConj(s string) string {
+	if s == "" {
+		return ""
+	}
+	parts := strings.Split(s, "\x00")
+	for i := range parts {
+		parts[i] = finalizeLeaf(parts[i])
+	}
+	sort.Strings(parts)
+	return "&&(" + strings.Join(parts, ",") + ")"
 }
 
 var paramTokenRe = regexp.MustCompile(`\$(recv|lit\d|\d)`)
